@@ -251,6 +251,24 @@ def run(chk: Check) -> None:
                       "got_form": repr(list(got_form.items(multi=True)))[:300], "got_files": repr(list(got_files.items(multi=True)))[:300]})
         if got_args != list(MultiDict(args).items(multi=True)):
             chk.fail("environ-args-roundtrip", f"args {got_args!r} != {args!r}", {"args": args})
+        # the same query given as TEXT (raw, not percent-encoded UTF-8: what EnvironBuilder(query_string=str) and servers that
+        # pass the bytes through as latin-1 put into QUERY_STRING) must come back unchanged as well
+        raw_alpha = ["a", "Z", "0", "é", "ü", "€", "Ж", "\U0001f600", "東", "-", "."]
+        rpairs = [("".join(rng.choice(raw_alpha) for _ in range(rng.randint(1, 3))), "".join(rng.choice(raw_alpha) for _ in range(rng.randint(0, 4))))
+                  for _ in range(rng.choice([1, 2, 3]))]
+        rtext = "&".join(k + "=" + v for k, v in rpairs)
+        try:
+            env1 = EnvironBuilder(path="/p", query_string=rtext).get_environ()
+            env2 = EnvironBuilder(path="/p").get_environ()
+            env2["QUERY_STRING"] = rtext.encode().decode("latin1")
+            for route, env in (("builder-text", env1), ("server-latin1", env2)):
+                rq = Request(env)
+                got = list(rq.args.items(multi=True))
+                if got != list(MultiDict(rpairs).items(multi=True)) or rq.query_string != rtext.encode():
+                    chk.fail("environ-raw-query-roundtrip", f"{route}: args {got!r} / query_string {rq.query_string!r} for {rtext!r}",
+                             {"route": route, "query": rtext})
+        except Exception as e:  # noqa: BLE001
+            chk.fail("environ-roundtrip-exception", f"raw query {rtext!r} raised {e!r}", {"query": rtext})
         # stream_encode_multipart -> MultiPartParser with a random buffer size
         data2 = MultiDict()
         for kind, x in order:
